@@ -778,11 +778,11 @@ def run_chain(fspec, lines):
     try:
         sents = []
         for e in elems:
-            sobj = DEC._assemble_messages(e.line)
+            sobj = next(iter(ST.IterMessages([e.line])))
             sobj.__class__ = _sent_class()
             SENT_IDX[id(sobj)] = e.idx
             sents.append(sobj)
-    except TypeError:
+    except (TypeError, StopIteration):
         return res
     chain2 = FL.FilterChain([make_filter(s) for s in fspec.split('+')])
     try:
